@@ -9,6 +9,7 @@ package main
 
 import (
 	"bytes"
+	"crypto/rsa"
 	"context"
 	"encoding/binary"
 	"fmt"
@@ -48,10 +49,11 @@ type cfg struct {
 	cbits int // 0 = no client key (policy None)
 	sbits int
 	auth  string // "anonymous" | "username"
+	extra string // "-" or a second, secured policy the server enables (SignAndEncrypt)
 }
 
 func (c cfg) String() string {
-	return fmt.Sprintf("%s %d %d %d %s", c.pol, c.mode, c.cbits, c.sbits, c.auth)
+	return fmt.Sprintf("%s %d %d %d %s %s", c.pol, c.mode, c.cbits, c.sbits, c.auth, c.extra)
 }
 
 // table is the complete finite set of configurations the code supports:
@@ -64,8 +66,25 @@ func table() []cfg {
 		pol := short(uri)
 		if uri == ua.SecurityPolicyURINone {
 			// no keys needed; also with certificates configured on both sides
-			out = append(out, cfg{pol, ua.MessageSecurityModeNone, 0, 0, "anonymous"})
-			out = append(out, cfg{pol, ua.MessageSecurityModeNone, 2048, 2048, "anonymous"})
+			out = append(out, cfg{pol, ua.MessageSecurityModeNone, 0, 0, "anonymous", "-"})
+			out = append(out, cfg{pol, ua.MessageSecurityModeNone, 2048, 2048, "anonymous", "-"})
+			// username login over the None endpoint of a server that also enables a
+			// secured policy q: the None endpoint advertises username_q, the password
+			// is encrypted with the server certificate under q
+			for _, quri := range uapolicy.SupportedPolicies() {
+				q := short(quri)
+				qs, secured := specBits[q]
+				if !secured {
+					continue
+				}
+				for _, sb := range keySizes {
+					if sb < qs[0] || sb > qs[1] {
+						continue
+					}
+					out = append(out, cfg{pol, ua.MessageSecurityModeNone, 0, sb, "username", q})
+					out = append(out, cfg{pol, ua.MessageSecurityModeNone, 2048, sb, "username", q})
+				}
+			}
 			continue
 		}
 		sp := specBits[pol]
@@ -76,7 +95,7 @@ func table() []cfg {
 						continue
 					}
 					for _, auth := range []string{"anonymous", "username"} {
-						out = append(out, cfg{pol, mode, cb, sb, auth})
+						out = append(out, cfg{pol, mode, cb, sb, auth, "-"})
 					}
 				}
 			}
@@ -105,6 +124,7 @@ type srvKey struct {
 	pol   string
 	mode  ua.MessageSecurityMode
 	sbits int
+	extra string
 }
 
 type running struct {
@@ -127,6 +147,9 @@ func (e *env) startServer(k srvKey) (*running, error) {
 			server.EnableAuthMode(ua.UserTokenTypeAnonymous),
 			server.EnableAuthMode(ua.UserTokenTypeUserName),
 			server.EndPoint("localhost", port),
+		}
+		if k.extra != "-" {
+			opts = append(opts, server.EnableSecurity(k.extra, ua.MessageSecurityModeSignAndEncrypt))
 		}
 		if k.sbits > 0 {
 			kp, err := h.LoadKey(e.o.Keys, k.sbits, "b")
@@ -246,7 +269,7 @@ func (e *env) connect(c cfg, srv *running, val int32) (res string, detail string
 	if got, ok := rd.Results[0].Value.Value().(int32); !ok || got != val {
 		return "fail:read-value", fmt.Sprintf("wrote %d, read %v", val, rd.Results[0].Value.Value())
 	}
-	if c.auth == "username" && c.cbits > 0 {
+	if c.auth == "username" && c.sbits > 0 {
 		if r, d := e.password(c, cl, ep); r != "ok" {
 			return r, d
 		}
@@ -281,11 +304,18 @@ func (e *env) password(c cfg, cl *opcua.Client, ep *ua.EndpointDescription) (str
 	e.r.Hit("pwlen")
 	e.r.Compare(e.d, line, fmt.Sprint(len(ct)))
 	sk, err1 := h.LoadKey(e.o.Keys, c.sbits, "b")
-	ck, err2 := h.LoadKey(e.o.Keys, c.cbits, "a")
-	if err1 != nil || err2 != nil {
-		return "infra", fmt.Sprint(err1, err2)
+	if err1 != nil {
+		return "infra", fmt.Sprint(err1)
 	}
-	srvAlgo, err := uapolicy.Asymmetric(tokPol, sk.Key, &ck.Key.PublicKey)
+	var cpub *rsa.PublicKey
+	if c.cbits > 0 {
+		ck, err2 := h.LoadKey(e.o.Keys, c.cbits, "a")
+		if err2 != nil {
+			return "infra", fmt.Sprint(err2)
+		}
+		cpub = &ck.Key.PublicKey
+	}
+	srvAlgo, err := uapolicy.Asymmetric(tokPol, sk.Key, cpub)
 	if err != nil {
 		return "fail:password-server-keys", err.Error()
 	}
@@ -372,7 +402,7 @@ func (e *env) runConfigs(cs []cfg) {
 	groups := map[srvKey][]cfg{}
 	var keys []srvKey
 	for _, c := range cs {
-		k := srvKey{c.pol, c.mode, c.sbits}
+		k := srvKey{c.pol, c.mode, c.sbits, c.extra}
 		if _, ok := groups[k]; !ok {
 			keys = append(keys, k)
 		}
@@ -404,7 +434,7 @@ func (e *env) runConfigs(cs []cfg) {
 			e.r.Hit("result:" + res)
 			e.r.Compare(e.d, line, res)
 			e.r.Sample(line + " -> " + res)
-			if c.auth == "anonymous" {
+			if c.auth == "anonymous" && c.extra == "-" {
 				ol := fmt.Sprintf("opnlen %s %d %d %d", c.pol, c.mode, c.cbits, c.sbits)
 				got := e.opnLen(c)
 				e.r.Count(ol, true)
@@ -437,7 +467,7 @@ func main() {
 	defer d.Close()
 	e := &env{o: o, r: r, d: d, rnd: h.NewRand(o.Seed)}
 	all := table()
-	r.Rule = fmt.Sprintf("case = one configuration (policy, mode, client key bits, server key bits, user token type) of the complete finite table (%d rows: 5 secured policies x {Sign, SignAndEncrypt} x committed key sizes within the policy's limits on each side x {anonymous, username}, plus policy None with and without certificates); per case a real server enabling exactly that policy/mode is started on a free port and the real client runs discovery, endpoint selection, OpenSecureChannel, CreateSession, ActivateSession (username: a 700-byte password, several RSA blocks), Write, Read back, Close. thorough = the whole table (exhaustive), quick = a seeded third (every policy/mode at least once). The Lean model decides `connect` for the same row; the table itself is compared with the generated Gen.configTable.", len(all))
+	r.Rule = fmt.Sprintf("case = one configuration (policy, mode, client key bits, server key bits, user token type, extra enabled policy) of the complete finite table (%d rows: 5 secured policies x {Sign, SignAndEncrypt} x ALL pairs of committed key sizes within the policy's limits (equal and mixed) x {anonymous, username}; policy None anonymous with and without certificates; username over the None endpoint of a server that also enables a secured policy q, for every q and server key size, client key absent or 2048); per case a real server enabling exactly that policy/mode (plus q) is started on a free port and the real client runs discovery, endpoint selection, OpenSecureChannel, CreateSession, ActivateSession (username: a 700-byte password, several RSA blocks), Write, Read back, Close. thorough = the whole table (exhaustive), quick = a seeded third (every policy/mode at least once). The Lean model decides `connect` for the same row; the table itself is compared with the generated Gen.configTable.", len(all))
 	// the table of the runner and the generated Lean table must be the same set
 	if d != nil {
 		want := d.Ask("table")
